@@ -112,12 +112,14 @@ def value_alphabet(t, cfg: Cfg, ctx: dict, k_limit: int = 8) -> list:
                     out.append(items)
         if isinstance(e, TWchar):
             # a non-BMP character: one code point, two UTF-16 code units (a valid surrogate pair)
+            extra = []
             for n in lens:
                 if n >= 2:
-                    out.append("\U0001F600" + "W" * (n - 2))
+                    extra.append("\U0001F600" + "W" * (n - 2))
                     # a 00 00 byte pair that straddles two code units (little endian: "W\u0100", big endian: "\u0100W")
-                    out.append("W\u0100" + "W" * (n - 2))
-                    out.append("\u0100W" + "W" * (n - 2))
+                    extra.append("W\u0100" + "W" * (n - 2))
+                    extra.append("\u0100W" + "W" * (n - 2))
+            out[1:1] = extra  # right behind the baseline, so that deviation-bounded enumerations with a small limit reach them
         return out
     if isinstance(t, TStruct):
         if t.union:
